@@ -718,6 +718,7 @@ func (b *Writer) ReadFrom(r io.Reader) (n int64, err error) {
 	for {
 		if b.Available() == 0 {
 			if err1 := b.flush(); err1 != nil {
+				b.TotalWrite += int(n)
 				return n, err1
 			}
 		}
